@@ -135,22 +135,22 @@ Theorem C15_copy_stream_relayed : forall peeked accepted segs reply, local_kind 
   copy_model (server_wrap peeked accepted) segs reply = mkRaw 1 segs reply 1.
 Proof. exact copy_stream_behind_server. Qed.
 
-(* (a datagram is read with ONE Read: whole on a port of its own, and on a port shared with a
-   detector service as long as it fits the server's 1024-byte peek) *)
+(* (a datagram is read until the datagram connection reports its end: whole, also on a port
+   shared with a detector service, where the peek wrapper hands it out in two Reads) *)
+Theorem C15_datagram_read_whole : forall k d, dgram_read k d = d.
+Proof. exact dgram_read_whole. Qed.
+
 Theorem C15_copy_datagram_relayed : forall peeked accepted d reply more, local_kind accepted = AUdp ->
-  has_peek accepted = false -> (peeked = false \/ (length d <= PEEK)%nat) ->
   copy_model (server_wrap peeked accepted) [d] (reply :: more) = mkRaw 1 [d] [reply] 1.
 Proof. exact copy_datagram_behind_server. Qed.
 
-(* defect of the unchanged code: on a shared port a longer datagram is cut at 1024 bytes *)
-Theorem C15_datagram_cut_on_shared_port_refuted :
-  exists d, w_backend (copy_model (server_wrap true KDummyUdp) [d] [[1]%N]) <> [d].
-Proof. exact datagram_cut_on_shared_port_refuted. Qed.
+Example C15_long_datagram_on_shared_port :
+  w_backend (copy_model (server_wrap true KDummyUdp) [repeat 7%N 1025] [[1]%N]) = [repeat 7%N 1025].
+Proof. exact long_datagram_on_shared_port. Qed.
 
 (* dns-proxy behind the server: a datagram is forwarded, its answer returned, one event -
    whether or not it unpacks as a DNS message (one that does not is recorded with its payload) *)
 Theorem C15_dns_datagram_relayed : forall peeked accepted d parses reply more, local_kind accepted = AUdp ->
-  has_peek accepted = false -> (peeked = false \/ (length d <= PEEK)%nat) ->
   dns_model (server_wrap peeked accepted) [d] parses (reply :: more) = mkRaw 1 [d] [reply] 1.
 Proof. exact dns_datagram_behind_server. Qed.
 
@@ -305,7 +305,7 @@ Print Assumptions C15_copy_both_directions_complete.
 Print Assumptions C15_copy_stops_when_both_directions_ended.
 Print Assumptions C15_ssh_backend_data_after_client_eof_delivered.
 Print Assumptions C15_ssh_client_data_before_backend_end_delivered.
-Print Assumptions C15_datagram_cut_on_shared_port_refuted.
+Print Assumptions C15_datagram_read_whole.
 Print Assumptions C15_http_replies_survive_failing_next_request.
 Print Assumptions C15_http_relayed_stays_relayed.
 Print Assumptions C15_http_backend_closed_ends_relay.
